@@ -81,16 +81,23 @@ class Txn:
         self.conn = conn
         self.tables = conn.db.snapshot()
         self.done = False
+        self.drop_behavior = 'Rollback'
         self.view = Conn(conn.db, self)
 
     def deref_model(self, I):
         return mkref(self.view)
 
     def on_drop(self, I):
-        # DropBehavior::Rollback (rusqlite's default)
+        # DropBehavior::Rollback is rusqlite's default; Transaction::set_drop_behavior may change it
         if not self.done:
             self.done = True
-            self.conn.db.log.append('rollback')
+            if self.drop_behavior == 'Commit':
+                self.conn.db.tables = self.tables
+                self.conn.db.log.append('commit-on-drop')
+            elif self.drop_behavior in ('Rollback', 'Ignore'):
+                self.conn.db.log.append('rollback')
+            else:
+                raise Unsupported('DropBehavior::' + str(self.drop_behavior))
 
 
 def _world(I):
@@ -396,3 +403,17 @@ def m_optional(I, path, args):
     if isinstance(e, SqlError) and e.kind == 'QueryReturnedNoRows':
         return Ok(NONE())
     return r
+
+
+@R.model(r'^Transaction::set_drop_behavior$', r'^rusqlite::Transaction::set_drop_behavior$')
+def m_set_drop_behavior(I, path, args):
+    t, b = deref(args[0]), deref(args[1])
+    names = ['Rollback', 'Commit', 'Ignore', 'Panic']
+    if isinstance(b, Adt) and b.name in names:
+        t.drop_behavior = b.name          # rustc prints a unique variant name without its enum
+    elif isinstance(b, Adt) and b.name == 'DropBehavior':
+        t.drop_behavior = names[b.variant] if b.variant < len(names) else ('?' + repr(b))
+    else:
+        n = str(getattr(b, 'path', b)).split('::')[-1]
+        t.drop_behavior = n if n in names else ('?' + repr(b))
+    return UNIT()
